@@ -13,10 +13,23 @@ A program (JSON-able dict):
     exc       "interaction" (CacheBackendInteractionError) | "runtime" (RuntimeError) - the injected class
     data      [[b, k, v, ttl|None], ...]      initial store content
     flocks    [[b, lk], ...]                  lock keys held for ever by a foreign owner before the block
-    body      ["set.b.k.v.ttl", "incr.b.k", "get.b.k", "del.b.k", "adv.dt", "raise"]
+    body      ["set.b.k.v.ttl", "incr.b.k", "get.b.k", "del.b.k", "adv.dt", "raise",
+               "setmany.b.ttl.k:v+k:v+...", "delmany.b.k+k+..."]      (multi-key commands: distinct keys of ONE backend)
+    holders   [{"b": b, "k": k, "end": "rollback"|"commit"}, ...]   contending holders: each is ANOTHER TASK running a real
+              transaction block (same mode, long timeout) that has written key k of backend b - so it holds that key's lock
+              (the backend's global lock when serializable) - and is parked on an asyncio.Event.  "rollback": it wrote
+              `set k 99` and leaves its block by raising; "commit": it deleted k (which must be absent from `data`) and
+              leaves normally.  Either way its only effect on the stores is to release its lock.
+
+A case = (program, faults, rels): `faults` the victim's command indices made to raise; `rels[j]` says when holder j is
+released: an int i = just before the victim's backend command number i takes effect (the victim's command is suspended
+until the holder's block has been left), or "after" = after the victim's block has been left.  Commands of the holders
+are neither counted nor faulted.  After the victim's block is left, every holder is released and awaited, and whatever
+task is still running (there must be none) gets its polling periods before the lock keys are inspected.
 """
 from __future__ import annotations
 
+import asyncio
 import contextvars
 import inspect
 
@@ -56,6 +69,13 @@ class BodyError(Exception):
     pass
 
 
+class HolderAbort(Exception):
+    pass
+
+
+HOLDER_TIMEOUT_S = 10.0          # lease of a holder's lock: far longer than any victim waits
+
+
 class Recorder:
     def __init__(self):
         self.on = False
@@ -64,26 +84,50 @@ class Recorder:
         self.faults = frozenset()
         self.exc_cls = InjectedInteraction
 
-    def start(self, faults, exc_cls):
+        self.times = {}
+        self.adv = 0              # ticks the body let pass explicitly (`adv`); any other progress of the clock is lock-steps
+        self.late = []            # commands issued on behalf of the victim AFTER its block was left (there must be none)
+        self.watch_late = False
+        self.before_cmd = None    # async hook(idx): the environment's move just before command idx takes effect
+
+    def start(self, faults, exc_cls, before_cmd=None):
         self.on = True
         self.n = 0
         self.trace = []
+        self.times = {}
+        self.adv = 0
+        self.late = []
+        self.watch_late = False
         self.faults = frozenset(faults)
         self.exc_cls = exc_cls
+        self.before_cmd = before_cmd
 
 
 REC = Recorder()
 _DEPTH: contextvars.ContextVar[int] = contextvars.ContextVar("c16_depth", default=0)
+_ROLE: contextvars.ContextVar[str] = contextvars.ContextVar("c16_role", default="victim")
 
 
 def _make(orig, name):
     async def cmd(self, *args, **kwargs):
-        if _DEPTH.get() or not REC.on:
+        if _DEPTH.get() or _ROLE.get() != "victim":
             return await orig(self, *args, **kwargs)
+        if not REC.on:
+            if not REC.watch_late:
+                return await orig(self, *args, **kwargs)
+            REC.late.append((self.tag, name, args, kwargs, CLOCK.t))
+            tok = _DEPTH.set(1)
+            try:
+                return await orig(self, *args, **kwargs)
+            finally:
+                _DEPTH.reset(tok)
         idx = REC.n
         REC.n += 1
         bad = idx in REC.faults
         REC.trace.append((idx, self.tag, name, args, kwargs, bad, CLOCK.ticks()))
+        if REC.before_cmd is not None:
+            await REC.before_cmd(idx, name)
+        REC.times[idx] = (CLOCK.t, REC.adv)
         if bad:
             raise REC.exc_cls(idx)
         tok = _DEPTH.set(1)
@@ -182,10 +226,21 @@ def lock_universe(prog):
     return out
 
 
-async def _run(prog, faults):
+def holder_lock(prog, h):
+    """(backend, lock key index) held by holder `h`"""
+    return (h["b"], 0 if prog["mode"] == "serializable" else h["k"] + 1)
+
+
+async def _run(prog, faults, rels):
     mode = prog["mode"]
     nb = prog["nb"]
     timeout_s = prog["timeout"] * TICK
+    holders = prog.get("holders") or []
+    if len(rels) != len(holders):
+        raise ValueError("one release point per holder")
+    if holders and mode == "fast":
+        raise ValueError("fast mode takes no locks: no holders")
+    asyncio.get_running_loop().set_exception_handler(lambda loop, ctx: None)   # orphan tasks' errors: observed through the locks
     cache = Cache()
     backs = []
     for b in range(nb):
@@ -204,12 +259,64 @@ async def _run(prog, faults):
         return {f"{b}.{k}": await backs[b].get(kname(b, k)) for b, k in universe}
 
     before = await snapshot()
+
+    # ---- the contending holders: other tasks inside their own (real) transaction blocks -----------------------
+    foreign_tokens = {FOREIGN}
+    hstate = []
+
+    async def holder_body(h, started, go):
+        _ROLE.set("holder")
+        try:
+            async with cache.transaction(MODES[mode], timeout=HOLDER_TIMEOUT_S):
+                if h["end"] == "commit":
+                    await cache.delete(kname(h["b"], h["k"]))
+                else:
+                    await cache.set(kname(h["b"], h["k"]), 99)
+                started.set()
+                await go.wait()
+                if h["end"] != "commit":
+                    raise HolderAbort()
+        except HolderAbort:
+            pass
+        finally:
+            started.set()
+
+    for h in holders:
+        if h["end"] == "commit" and any(d[0] == h["b"] and d[1] == h["k"] for d in prog["data"]):
+            raise ValueError("a committing holder deletes a key that must be absent")
+        started, go = asyncio.Event(), asyncio.Event()
+        task = asyncio.ensure_future(holder_body(h, started, go))
+        await started.wait()
+        hb, hlk = holder_lock(prog, h)
+        tok = await backs[hb].get_raw(lockname(mode, hb, hlk))
+        if task.done() or tok is None:
+            raise RuntimeError(f"harness: holder {h} did not obtain its lock")
+        foreign_tokens.add(tok)
+        hstate.append({"go": go, "task": task, "released_at": None})
+
+    async def release(j, where, wait=True):
+        st = hstate[j]
+        if st["released_at"] is None:
+            st["released_at"] = where
+            st["go"].set()
+        if wait:
+            await st["task"]
+
+    async def before_cmd(idx, name):
+        # the victim's command is suspended until the holder has left its block, so that the release has taken effect before
+        # it.  Not for `unlock`: those are sibling tasks of one asyncio.gather, suspending one would reorder them; an unlock
+        # does not depend on foreign locks, so there the holder just starts leaving (it is awaited after the block).
+        for j, r in enumerate(rels):
+            if r == idx:
+                await release(j, idx, wait=name != "unlock")
+
     outs = []
-    state = {"body_end": None, "body_raised": False}
+    state = {"body_end": None, "body_raised": False, "starts": []}
 
     async def body():
         try:
             for c in prog["body"]:
+                state["starts"].append(REC.n)
                 w = c.split(".")
                 if w[0] == "set":
                     b, k, v = int(w[1]), int(w[2]), int(w[3])
@@ -224,8 +331,18 @@ async def _run(prog, faults):
                 elif w[0] == "del":
                     r = await cache.delete(kname(int(w[1]), int(w[2])))
                     outs.append("T" if r is True else "F" if r is False else f"?{r!r}")
+                elif w[0] == "setmany":
+                    b = int(w[1])
+                    pairs = {kname(b, int(kv.split(":")[0])): int(kv.split(":")[1]) for kv in w[3].split("+")}
+                    r = await cache.set_many(pairs, expire=None if w[2] == "-" else int(w[2]) * TICK)
+                    outs.append("U" if r is None else f"?{r!r}")
+                elif w[0] == "delmany":
+                    b = int(w[1])
+                    r = await cache.delete_many(*[kname(b, int(k)) for k in w[2].split("+")])
+                    outs.append("U" if r is None else f"?{r!r}")
                 elif w[0] == "adv":
                     CLOCK.advance(int(w[1]))
+                    REC.adv += int(w[1])
                 elif w[0] == "raise":
                     raise BodyError()
                 else:
@@ -237,7 +354,7 @@ async def _run(prog, faults):
             state["body_end"] = REC.n
 
     exc_cls = InjectedRuntime if prog.get("exc") == "runtime" else InjectedInteraction
-    REC.start(faults, exc_cls)
+    REC.start(faults, exc_cls, before_cmd if holders else None)
     exc = "none"
     try:
         if prog.get("form") == "decor":
@@ -256,10 +373,23 @@ async def _run(prog, faults):
         exc = "body"
     except Exception as e:  # noqa: BLE001
         exc = f"other:{type(e).__name__}"
+    # ---- the victim's block has been left ------------------------------------------------------------------
     REC.on = False
+    REC.watch_late = True
     trace = list(REC.trace)
     end_ticks = CLOCK.ticks() if abs((CLOCK.t - BASE) / TICK - CLOCK.ticks()) < 1e-9 else None
     ctx_none = _transaction.get() is None
+    # every holder finishes; then anything still running on behalf of the victim (nothing should be) gets its polling periods
+    for j in range(len(hstate)):
+        await release(j, "after")
+    me = asyncio.current_task()
+    pending_after = sum(1 for t in asyncio.all_tasks() if t is not me and not t.done())
+    t_stop = CLOCK.t + timeout_s + 1.0
+    while CLOCK.t < t_stop and any(t is not me and not t.done() for t in asyncio.all_tasks()):
+        await asyncio.sleep(0.1)
+    REC.watch_late = False
+    late = list(REC.late)
+    times = dict(REC.times)       # (a command still suspended when the block was left - never on a correct tree - took effect later)
     after = await snapshot()
     # what an untouched store shows at this instant: the initial content minus what has expired meanwhile
     untouched = {f"{b}.{k}": None for b, k in universe}
@@ -270,7 +400,7 @@ async def _run(prog, faults):
     for b, lk in lock_universe(prog):
         raw = await backs[b].get_raw(lockname(mode, b, lk))
         if raw is not None:
-            remaining.append((b, lk, "f" if raw == FOREIGN else "m"))
+            remaining.append((b, lk, "f" if raw in foreign_tokens else "m"))
     # a write issued right after the block
     pb, pk, pv = PROBE
     try:
@@ -279,11 +409,15 @@ async def _run(prog, faults):
         pass
     probe_ok = (await backs[pb].get(kname(pb, pk))) == pv
     final = await snapshot()
-    # lease of what remains: live until (acquisition + timeout), gone at that instant
+    # lease of what remains: live until (acquisition + timeout), gone at that instant.  Acquisitions that happened after a
+    # lock-step (0.1 s sleeps) are not at whole ticks: their deadline is checked but reported as "~" (not compared with the model)
     acq = {}
-    for idx, b, name, args, kwargs, bad, t in trace:
+    for idx, b, name, args, kwargs, bad, _t in trace:
         if name == "set_lock" and not bad:
-            acq[(b, _lkidx(b, args[0]))] = t
+            acq[(b, _lkidx(b, args[0] if args else kwargs["key"]))] = times.get(idx, (CLOCK.t, None))
+    for b, name, args, kwargs, t in late:
+        if name == "set_lock":
+            acq[(b, _lkidx(b, args[0] if args else kwargs["key"]))] = (t, None)
     locks = []
     for b, lk, owner in remaining:
         if owner == "f":
@@ -291,16 +425,17 @@ async def _run(prog, faults):
             continue
         dl = "?"
         if (b, lk) in acq:
-            d = acq[(b, lk)] + prog["timeout"]
+            t_acq, adv_then = acq[(b, lk)]
+            t_dl = t_acq + timeout_s
             ok = True
-            t_before = BASE + (d - 1) * TICK
-            if CLOCK.t <= t_before:
-                CLOCK.t = t_before
+            if CLOCK.t <= t_dl - TICK / 2:
+                CLOCK.t = t_dl - TICK / 2
                 ok = await backs[b].exists(lockname(mode, b, lk))
-            CLOCK.t = max(CLOCK.t, BASE + d * TICK)
+            CLOCK.t = max(CLOCK.t, t_dl)
             gone = not await backs[b].exists(lockname(mode, b, lk))
             if ok and gone:
-                dl = str(d)
+                # the model's clock only moves by `adv`: an acquisition at any other instant came after lock-steps
+                dl = str(adv_then + prog["timeout"]) if adv_then is not None and t_acq == BASE + adv_then * TICK else "~"
         locks.append(f"{b}.{lk}.m.{dl}")
     await cache.close()
     return {
@@ -321,17 +456,23 @@ async def _run(prog, faults):
         "uprio": [(b, _lkidx(b, args[0])) for _, b, name, args, _, _, _ in trace if name == "unlock"],
         "unlocks_ev": {i: (b, _lkidx(b, args[0])) for i, b, name, args, _, _, _ in trace if name == "unlock"},
         "failed": [i for i, *_r in trace if _r[4]],
+        "cmd_starts": state["starts"],
+        "released_at": [st["released_at"] for st in hstate],
+        "tasks_pending_after_block": pending_after,
+        "late_commands": [show_event((0, b, name, args, kwargs, False, 0)) for b, name, args, kwargs, _ in late],
     }
 
 
-def execute(prog, faults):
-    return vtime.run(_run, prog, tuple(faults))
+def execute(prog, faults, rels=()):
+    return vtime.run(_run, prog, tuple(faults), tuple(rels))
 
 
-def model_line(prog, faults, uprio) -> str:
+def model_line(prog, faults, uprio, rels=()) -> str:
     def dash(xs, sep=","):
         xs = list(xs)
         return sep.join(xs) if xs else "-"
+    holders = prog.get("holders") or []
+    hl = [holder_lock(prog, h) for h in holders]
     return " ".join([
         "run",
         f"mode={prog['mode']}",
@@ -343,6 +484,9 @@ def model_line(prog, faults, uprio) -> str:
         "flocks=" + dash(f"{b}.{lk}" for b, lk in prog["flocks"]),
         "body=" + dash(prog["body"], ";"),
         "probe=%d.%d.%d" % PROBE,
+        "step=0",
+        "hlocks=" + dash(f"{b}.{lk}" for b, lk in hl),
+        "rel=" + dash(f"{r}.{b}.{lk}" for (b, lk), r in zip(hl, rels) if isinstance(r, int)),
     ])
 
 
